@@ -130,6 +130,10 @@ func (t *Transport) Close() {
 	defer t.s.mu.Unlock()
 	t.closed = true
 	t.connected = false
+	// the connection takes its subscriptions with it
+	for _, u := range t.subs {
+		u.active = false
+	}
 	t.s.obsLocked("seam", "close")
 }
 
